@@ -19,14 +19,20 @@ tvars == <<cur>>
 TraceInit == cur = 1 /\ TLCSet(1, <<>>) /\ TLCSet(2, 0) /\ TLCSet(3, 0) /\ TLCSet(4, {})
 
 \* ---------------------------------------------------------------- judgements
+SESPath(cs) == [i \in 1..Len(cs.path) |-> IF cs.path[i].f = "slice" THEN WithOv(cs.path[i], StartEndStepIdx, MaxArrLen(cs.data))
+                                          ELSE cs.path[i]]
+\* which struct-less fragment kinds the path applies to struct-shaped objects (only evaluated for struct representations)
+OnStruct(g) == \E q \in 1..Len(g.as) : g.as[q] \in {"struct/built", "pstruct/built", "estruct/built", "pestruct/built"}
+NoSF == [wild |-> FALSE, desc |-> FALSE, filter |-> FALSE]
+\* (also under the startEndStep reading of the slices, C11-2: Locate/Walk may reach a struct through a slice that Get reads as empty)
+OrSF(x, y) == [wild |-> x.wild \/ y.wild, desc |-> x.desc \/ y.desc, filter |-> x.filter \/ y.filter]
+SF(cs, g) == IF ~OnStruct(g) THEN NoSF
+             ELSE IF HasSlice(cs.path) THEN OrSF(StructFrags(cs.path, cs.data), StructFrags(SESPath(cs), cs.data))
+             ELSE StructFrags(cs.path, cs.data)
 \* an evaluator that did not return ("hang", isolated mode of the harness) or was not run after one that hung
 Abn(cs, g, ev, res) == IF res.m = "not-run" THEN <<>>
                        ELSE << [sf |-> SF(cs, g), i |-> cur, as |-> g.as, ev |-> ev, kind |-> IF res.m = "hang" THEN "hang" ELSE "panic",
                                 loc |-> Locus(cs.path, cs.data, cs.fx), m |-> res.m] >>
-\* which struct-less fragment kinds the path applies to struct-shaped objects (only evaluated for struct representations)
-OnStruct(g) == \E q \in 1..Len(g.as) : g.as[q] \in {"struct/built", "pstruct/built", "estruct/built", "pestruct/built"}
-NoSF == [wild |-> FALSE, desc |-> FALSE, filter |-> FALSE]
-SF(cs, g) == IF OnStruct(g) THEN StructFrags(cs.path, cs.data) ELSE NoSF
 Dev(cs, g, ev, kind, msg) == [sf |-> SF(cs, g), i |-> cur, as |-> g.as, ev |-> ev, kind |-> kind, loc |-> Locus(cs.path, cs.data, cs.fx), m |-> msg]
 
 \* the recorded last-position choice of every slice fragment (see JsonPath!ProbeOK)
@@ -82,8 +88,6 @@ LocateOK(cs, res, max, E) ==
 (* Known defect C11-2 made precise: a Locate / Walk answer that is wrong is classified "as-implemented" (locus          *)
 (* slice/startEndStep-reading) only when it is EXACTLY what the path denotes if every slice is read with               *)
 (* JsonPath!StartEndStepIdx; any other wrong answer in the same cell is an ordinary deviation.                        *)
-SESPath(cs) == [i \in 1..Len(cs.path) |-> IF cs.path[i].f = "slice" THEN WithOv(cs.path[i], StartEndStepIdx, MaxArrLen(cs.data))
-                                          ELSE cs.path[i]]
 ESes(cs) == Locs(SESPath(cs), cs.data)
 DevImpl(cs, g, ev) == [sf |-> NoSF, i |-> cur, as |-> g.as, ev |-> ev, kind |-> "as-implemented", m |-> "",
                        loc |-> [frag |-> "slice", pos |-> "startEndStep-reading", cont |-> "-", pre |-> "-", bound |-> <<"-">>]]
